@@ -23,7 +23,8 @@ THEOREMS = [
 KERNELS = ["k_jackknife", "k_weights", "k_normalise", "k_estimators", "k_cov", "k_histjk"]
 RULE = ("random pair-count containers (N patches 1..7, B bins 1..5, auto/cross, sparsity 0..0.9, integer counts, "
         "half-integer auto diagonal) and random histogram count arrays; compared: sample_patch_sum data/samples "
-        "(EXACT), CorrFunc.sample data/samples (ULP 16), covariance (ULP 64N), error, resample_jackknife (EXACT) "
+        "(EXACT), CorrFunc.sample data/samples (ULP 16), covariance (ULP 64N), error, resample_jackknife (EXACT, also for "
+        "64..257 (..1000 thorough) patches) "
         "against (a) the generated-kernel model and (b) the leave-one-out spec. non-trivial: N >= 2 and at least "
         "two distinct non-zero counts; distinct by request text")
 
@@ -219,6 +220,18 @@ def run(prop, tier, seed, replay):
                 d = cmp_exact(impl, g)
                 if d:
                     ck.add_tie_break("histjk impl vs model", {"diff": d, "request": reqs[ci]})
+
+    # stratum: many patches (index arithmetic of the resampling; the Lean model is size-independent, the arrays are not)
+    for N_big in ([64, 182, 200, 257] if tier == "quick" else [64, 181, 182, 183, 200, 256, 257, 400, 1000]):
+        counts = np.array([[float(rng.randrange(0, 50)) for _ in range(2)] for _ in range(N_big)])
+        smp = resample_jackknife(counts)
+        want = counts.sum(axis=0)[None, :] - counts
+        ck.count("hist-many-patches")
+        ck.case(None, ("hist-big", N_big))
+        if smp.shape != want.shape or not np.array_equal(smp, want):
+            bad = int(np.argmax((smp != want).any(axis=1))) if smp.shape == want.shape else -1
+            ck.add_violation(f"resample_jackknife with {N_big} patches: sample {bad} is not the sum with patch {bad} left out",
+                             {"kind": "hist-big", "N": N_big, "counts": counts.tolist()})
 
     # covariance / error
     gcov = ck.driver("GenResample", cov_reqs)
